@@ -1135,7 +1135,8 @@ impl Read for Message<'_> {
             Self::Encrypted { edata, .. } => edata.read(buf),
         }?;
 
-        if read == 0 {
+        // (a zero-length read returns 0 as well: that is not the end of the data)
+        if read == 0 && !buf.is_empty() {
             self.check_trailing_data()?;
         }
 
